@@ -359,10 +359,16 @@ class NegateExpression(UnaryExpression):
         literal_power = isinstance(inner, PowerExpression) and isinstance(
             inner.left, ConstantExpression
         )
+        # The same holds for a longer operand that begins with such a literal:
+        # "-2^x * y" reads as (-2)^x * y and "-2! * x" as (-2)! * x
+        text = f"{inner}"
+        after_literal = text.lstrip("0123456789.")
+        literal_operator = after_literal != text and after_literal[:1] in ("^", "!")
         if (
             isinstance(inner, group_types)
             or literal_power
-            or f"{inner}".startswith("-")
+            or literal_operator
+            or text.startswith("-")
         ):
             inner = f"({inner})"
         out = self.with_color("-{}".format(inner))
